@@ -74,7 +74,7 @@ def case_st(draw):
     n = len(labs)
     p = {}
     if op == "sort_axis":
-        p["key"] = draw(st.sampled_from([None, None, "neg", "strrev", "dict", "const-mod2"]))
+        p["key"] = draw(st.sampled_from([None, None, "neg", "strrev", "dict", "const-mod2", "slice-rev"]))
     elif op == "take_axis":
         if draw(st.booleans()):
             p = {"indexing": "label", "indices": draw(st.lists(st.sampled_from(labs), min_size=0, max_size=5))}
@@ -218,7 +218,8 @@ def compare(res, dims, labels, exp, what, sig, src=None):
                                                                                "result": core.brief(res)}, sig)
 
 
-KEYS = {"neg": lambda x: -x, "strrev": lambda x: str(x)[::-1], "const-mod2": lambda x: (x if isinstance(x, str) else int(x * 4)) in ("a", "c", "e") if isinstance(x, str) else int(x * 4) % 2}
+# ("slice-rev" is also meaningful - differently - on a whole array of labels)
+KEYS = {"neg": lambda x: -x, "strrev": lambda x: str(x)[::-1], "slice-rev": lambda x: x[::-1], "const-mod2": lambda x: (x if isinstance(x, str) else int(x * 4)) in ("a", "c", "e") if isinstance(x, str) else int(x * 4) % 2}
 
 
 def run_case(case):
@@ -252,6 +253,8 @@ def run_case(case):
     if op == "sort_axis":
         key = p["key"]
         if key == "neg" and core.label_kind(labs) == "s":
+            key = "strrev"
+        if key == "slice-rev" and core.label_kind(labs) != "s":
             key = "strrev"
         if key is None:
             pos = sorted(range(n), key=lambda i: labs[i])
@@ -372,6 +375,14 @@ def run_case(case):
             res = lib(lambda: a.fillna(v), what=what, sig=sig)
         compare(res, dims, labels, exp, what, sig)
         cl.add("fillna")
+        if spec["vk"] == "f" and isinstance(v, (int, float)) and not isinstance(v, bool) and not core.isnan(v):
+            # the same cells in single precision: NaN is NaN in every float width
+            v32 = np.asarray(vals, dtype=np.float32)
+            a32 = da.DimArray(v32.copy(), axes=[x.copy() for x in a.axes] if not p["inplace"] else [da.Axis(core.label_array(l), d) for d, l in zip(dims, labels)])
+            r32 = lib(lambda: a32.fillna(v), what=what + " [float32 data]", sig=sig)
+            g = np.asarray(r32.values)
+            check(g.dtype.kind == "f" and g.shape == v32.shape and not np.isnan(g).any() and np.array_equal(g[~np.isnan(v32)], v32[~np.isnan(v32)])
+                  and np.all(g[np.isnan(v32)] == np.float32(v)), "fillna-single-precision", {"what": what, "got": core.jsonable(g), "data": core.jsonable(v32), "value": core.jsonable(v)}, sig)
         nontrivial = bool(nanmask.any()) and not bool(nanmask.all())
     elif op == "setna":
         exp = np.asarray(vals, dtype=object).copy()
